@@ -271,6 +271,28 @@ def run_unit(unit) -> UnitResult:
                         res.violations.append(
                             {"seed": seed, "mode": "parse", "frames": [f], "msgmode": mm, "validate": val, "parsebitfield": pbf, "clause": pv[0] + "|" + pv[2], "detail": pv[1]}
                         )
+    # ... and arbitrary byte strings (the property says "for every byte string"): garbage over the
+    # frame alphabet, prefixes / suffixes / splices of the frames on this wire
+    r_arb = core.stream(seed, "arbitrary")
+    wire = link.wire_of(scn["frames"])
+    strings = [device.garbage(r_arb, n=r_arb.randrange(0, 24), alphabet=device.FRAME_ALPHABET)]
+    if wire:
+        a = r_arb.randrange(len(wire))
+        strings.append(wire[a : a + r_arb.randrange(0, 64)])
+        strings.append(hb[: r_arb.randrange(0, len(hb) + 1)])
+        strings.append(hb[:6] + device.garbage(r_arb, n=r_arb.randrange(0, 12)) + hb[-2:])
+    for data in strings:
+        mm, val, pbf = r_arb.randrange(4), r_arb.randrange(2), r_arb.randrange(2)
+        pv, outcome = _judge_parse(data, mm, val, pbf)
+        res.evaluations += 1
+        c.hit("arbitrary_strings_parsed")
+        if outcome:
+            c.hit("parse:" + outcome)
+        if pv is not None and not seen_parse_violation:
+            seen_parse_violation = True
+            res.violations.append(
+                {"seed": seed, "mode": "parse", "frames": [{"kind": "garbage", "hex": data.hex(), "faults": [], "note": "arbitrary bytes"}], "msgmode": mm, "validate": val, "parsebitfield": pbf, "clause": pv[0] + "|" + pv[2], "detail": pv[1]}
+            )
     if seed % 1777 == 0:
         res.samples.append(common.sample_of(scn))
     return res
